@@ -5,6 +5,7 @@ CONSTANTS
   Dirs = {"fwd"}
   MaxNet = 1
   MaxLink = 1
+  ReplayOnLinkStart = TRUE
   OwedSigQuirk = FALSE
   StrandQuirk = FALSE
 INVARIANTS
